@@ -548,3 +548,62 @@ Print Assumptions C06_ts_vsum_binary64_drift_running.
 Print Assumptions C06_history_independence_up_to_rounding_ts_vsum.
 Print Assumptions C06_ts_vsum_operation_count.
 Print Assumptions C06_ts_vsum_exact_on_grid.
+
+(* ---- (B'') the rolling MEAN in binary64, and window-local exactness (Proofs/RoundMean.v) -----------------------
+   The mean divides the rolling sum by `n as f64` (exact for n <= w < 2^53): one more correctly rounded operation,
+   which CAN underflow — error model |fl(x) - x| <= u |x| + eta, eta64 = 2^-1075 (Props/C11.v (R5)).               *)
+From Coq Require Import ZArith.
+From Tevec Require Import Proofs.RoundMean.
+
+(* (18) after ANY history the emitted mean is within ((1+u)^(m+1) - 1) * H / n + eta of the exact mean of the window *)
+Theorem C06_ts_vmean_binary64_error :
+  forall (w : nat) (mp : option nat) (body : bool) (xs : list PrimFloat.float) (i : nat) (o : PrimFloat.float),
+    1 <= w -> (Z.of_nat w < 2 ^ 53)%Z ->
+    nth_error (ts_out (ts_vmean_f (NA := NumF64) (DT := IsNoneF64) w mp) body w xs) i = Some o -> ffin o = true ->
+    (Rabs (f2r o - meanR (rvals64 (win w i xs)))
+     <= gam u64 (S (nops w xs i)) * (habs w xs i / INR (length (rvals64 (win w i xs)))) + eta64)%R.
+Proof. exact ts_vmean_binary64_error. Qed.
+
+(* (19) history independence up to rounding for the mean: two series (any lengths, any histories, either body) whose
+   windows at positions i and j coincide give means that differ by at most the two rounding bounds *)
+Theorem C06_history_independence_up_to_rounding_ts_vmean :
+  forall (w : nat) (mp : option nat) (body1 body2 : bool) (xs ys : list PrimFloat.float) (i j : nat)
+         (o1 o2 : PrimFloat.float),
+    1 <= w -> (Z.of_nat w < 2 ^ 53)%Z -> win w i xs = win w j ys ->
+    nth_error (ts_out (ts_vmean_f (NA := NumF64) (DT := IsNoneF64) w mp) body1 w xs) i = Some o1 ->
+    nth_error (ts_out (ts_vmean_f (NA := NumF64) (DT := IsNoneF64) w mp) body2 w ys) j = Some o2 ->
+    ffin o1 = true -> ffin o2 = true ->
+    (Rabs (f2r o1 - f2r o2)
+     <= (gam u64 (S (nops w xs i)) * habs w xs i + gam u64 (S (nops w ys j)) * habs w ys j)
+        / INR (length (rvals64 (win w j ys))) + 2 * eta64)%R.
+Proof. exact ts_vmean_history_independence_up_to_rounding. Qed.
+
+(* (20) exactness of the rolling sum under a WINDOW-LOCAL premise (strengthens (17), which needs the whole history in
+   range): valid elements multiples of 2^e, every window's sum of |x| below 2^(e+53) — then no addition or subtraction
+   rounds however long the series: on such data the history does not enter at all *)
+Theorem C06_ts_vsum_exact_on_grid_local :
+  forall (e : Z) (w : nat) (mp : option nat) (body : bool) (xs : list PrimFloat.float),
+    (-1074 <= e)%Z -> (e + 53 <= 1024)%Z -> 1 <= w -> forallb (grid_check e) (fvals xs) = true ->
+    (forall i, i < length xs -> (spow 1 (rvals64 (win w i xs)) < pow2 (e + 53))%R) ->
+    map fx (ts_out (ts_vsum_f (NA := NumF64) (DT := IsNoneF64) w mp) body w xs)
+    = ts_out (ts_vsum_f (NA := NumXR) (DT := IsNoneXR) w mp) body w (map fx xs).
+Proof. exact ts_vsum_f64_exact_on_grid_local_props. Qed.
+
+(* non-vacuity of (18)-(19): the histories 1e16 / NaN in front of the same window [0.1; 0.2]; the means DO differ *)
+Example C06_example_mean_rounding_premises :
+  exists o1 o2,
+    nth_error (ts_out (ts_vmean_f (NA := NumF64) (DT := IsNoneF64) 2 (Some 1)) true 2 [1e16; 0.1; 0.2]%float) 2 = Some o1 /\
+    nth_error (ts_out (ts_vmean_f (NA := NumF64) (DT := IsNoneF64) 2 (Some 1)) false 2 [nan; 0.1; 0.2]%float) 2 = Some o2 /\
+    ffin o1 = true /\ ffin o2 = true /\ (Z.of_nat 2 < 2 ^ 53)%Z /\
+    win 2 2 [1e16; 0.1; 0.2]%float = win 2 2 [nan; 0.1; 0.2]%float /\
+    PrimFloat.eqb o1 o2 = false.
+Proof. do 2 eexists. repeat split; vm_compute; reflexivity. Qed.
+(* non-vacuity of (20): a series whose total magnitude is irrelevant — only windows matter; executable premises *)
+Example C06_example_grid_local_premises :
+  forallb (grid_check (-2)) (fvals [1.25; nan; -0.75; 100]%float) = true /\
+  forallb (abs_le_check 100) (fvals [1.25; nan; -0.75; 100]%float) = true /\ (-1074 <= -2)%Z /\ (-2 + 53 <= 1024)%Z.
+Proof. repeat split; try (vm_compute; reflexivity); discriminate. Qed.
+
+Print Assumptions C06_ts_vmean_binary64_error.
+Print Assumptions C06_history_independence_up_to_rounding_ts_vmean.
+Print Assumptions C06_ts_vsum_exact_on_grid_local.
